@@ -14,7 +14,8 @@ TECHNIQUE = "property-based differential between the simulator's own query paths
 RULE = (
     "Problems from the C01 grammar; all states reachable within depth 2 (quick) / 3 via the simulator's own apply; in every "
     "state every ground action instance (harness enumeration over all objects of the parameter types) is queried with "
-    "is_applicable and apply in a generated order on ONE simulator instance, plus get_applicable_actions, is_goal, "
+    "is_applicable and apply in a generated order on ONE simulator instance, plus get_applicable_actions (also abandoned after "
+    "one or two items, and two enumerations interleaved, before the other queries), is_goal, "
     "get_unsatisfied_goals, get_unsatisfied_conditions; the state is snapshotted before/after and every query is repeated at "
     "the end.  Non-trivial = state in which some instance is rejected although its preconditions hold (conflict, bound, "
     "invariant, undefined value) or accepted with a forall / conditional effect; distinct by (problem, state)."
@@ -68,6 +69,32 @@ def check(ctx, case):
                 except Exception as e:
                     raise Violation(f"apply-exception:{type(e).__name__}", f"path {path} {a.name}{list(args)}: {e!r}", case, {"path": path})
 
+            # history: the enumeration query may be abandoned half-way or run twice interleaved
+            # (it is a generator); neither may change what any later query answers
+            mode = (order_seed + nstates) % 4
+            try:
+                if mode == 0:
+                    it = iter(sim.get_applicable_actions(state))
+                    for _ in range(1 + order_seed % 2):
+                        next(it, None)
+                    del it
+                elif mode == 1:
+                    it1, it2 = iter(sim.get_applicable_actions(state)), iter(sim.get_applicable_actions(state))
+                    g1, g2 = [], []
+                    while True:
+                        x1, x2 = next(it1, None), next(it2, None)
+                        if x1 is None and x2 is None:
+                            break
+                        if x1 is not None:
+                            g1.append((x1[0].name, tuple(map(str, x1[1]))))
+                        if x2 is not None:
+                            g2.append((x2[0].name, tuple(map(str, x2[1]))))
+                    if set(g1) != set(g2):
+                        raise Violation("get_applicable_actions-differs", f"path {path}: two interleaved enumerations differ: {sorted(set(g1) ^ set(g2))[:3]}", case, {"path": path})
+            except Violation:
+                raise
+            except Exception as e:
+                raise Violation(f"get_applicable_actions-exception:{type(e).__name__}", f"path {path}: {e!r}", case, {"path": path})
             for n, i in enumerate(order):
                 a, args, ps = instances[i]
                 if (order_seed + n) % 3 == 0:
